@@ -154,7 +154,18 @@ func c14Balance(c *Ctx) *RuleResult {
 				r.bad(c.Prop, construct, c.P.Pos(s.Body.Pos()), fmt.Sprintf("entry point returns with net %+d on %s: a lock is left behind (or released without having been taken)", ef.Delta+ef.DeltaR, k))
 				continue
 			}
+			// result-correlated effects are only acceptable where a caller inside the repository can
+			// follow them: not for entry points, and not for functions nobody calls directly
+			if ef := s.EffectsFail[k]; ef != nil && (isLockRoot(e, s) || !s.Called) && (ef.Delta != 0 || ef.DeltaR != 0) {
+				r.bad(c.Prop, construct, c.P.Pos(s.Body.Pos()), fmt.Sprintf("balance: the paths that return an error leave with net %+d on %s, the successful ones with %+d: a failed call leaves the lock behind (or releases one it did not take)", ef.Delta+ef.DeltaR, k, s.Effects[k].Delta+s.Effects[k].DeltaR))
+				continue
+			}
 			detail := "balanced on all return paths"
+			if ef := s.EffectsFail[k]; ef != nil {
+				detail = fmt.Sprintf("effect correlated with the error result and followed by every caller: nil -> net %+d, error -> net %+d", s.Effects[k].Delta+s.Effects[k].DeltaR, ef.Delta+ef.DeltaR)
+				r.ok(construct, c.P.Pos(s.Body.Pos()), detail)
+				continue
+			}
 			if ef := s.Effects[k]; ef != nil {
 				detail = fmt.Sprintf("consistent on all %d exit states: pre=%s net=%+d", s.Exits, preName(ef.Pre), ef.Delta+ef.DeltaR)
 			}
@@ -360,8 +371,8 @@ func c14Order(c *Ctx) *RuleResult {
 
 func init() {
 	register(&PropertySpec{
-		ID:    "C14",
-		Level: "proof",
+		ID:          "C14",
+		Level:       "proof",
 		Explanation: "Path-exhaustive lock typestate analysis (go/cfg, path-sensitive on branch conditions and flags, inferred callee summaries to a fixpoint) of every function in pkg/filesystem/virtual/..., pkg/filesystem/pool, pkg/scheduler/..., pkg/cleaner (linux/amd64 build): each (function, lock key) pair is one obligation 'all exits agree, nothing left held, nothing unlocked twice'; plus no blocking operation under a lock, LockPile discipline and an acyclic class-level lock order. Decides the first sentence of the property for all control-flow paths; for the second sentence it decides the classical sufficient conditions under the stated lock model, not termination itself.",
 		Assumptions: []string{
 			"locks are identified by access path inside a function and by class (Type.field) across functions",
@@ -370,7 +381,7 @@ func init() {
 			"interface calls are resolved by class hierarchy for blocking/ordering facts, but only single-instance lock classes (frozen table) are reasoned about through them; per-object locks only through statically resolved calls",
 			"Darwin/Windows-only files are outside the analysed build configuration",
 		},
-		Rules: []RuleFunc{c14Balance, c14NoBlock, c14Pile, c14Order, c14Channels},
+		Rules: []RuleFunc{c14Balance, c14NoBlock, c14Pile, c14Order, c14Channels, c14PileImpl},
 	})
 }
 
@@ -440,12 +451,12 @@ func dumpClasses(e *LockEngine) {
 // instance-level fact; per-object locks (directories, files, per-client state) are hierarchical and
 // only analysed through statically resolved calls.
 var singletonLockClasses = map[string]string{
-	"scheduler.InMemoryBuildQueue.lock":        "one build queue per scheduler process",
-	"nfsv4.nfs40Program.lock":                  "one program object per NFSv4.0 mount",
-	"nfsv4.nfs41Program.clientsLock":           "one program object per NFSv4.1 mount",
-	"virtual.nfsHandlePool.lock":               "one handle pool per NFS handle allocator, shared by all its nodes",
-	"nfsv4.OpenedFilesPool.lock":               "one opened-files pool per NFS program",
-	"fuse.simpleRawFileSystem.nodeLock":        "one raw file system per FUSE mount",
-	"pool.bitmapSectorAllocator.lock":          "one sector allocator per block device",
+	"scheduler.InMemoryBuildQueue.lock":              "one build queue per scheduler process",
+	"nfsv4.nfs40Program.lock":                        "one program object per NFSv4.0 mount",
+	"nfsv4.nfs41Program.clientsLock":                 "one program object per NFSv4.1 mount",
+	"virtual.nfsHandlePool.lock":                     "one handle pool per NFS handle allocator, shared by all its nodes",
+	"nfsv4.OpenedFilesPool.lock":                     "one opened-files pool per NFS program",
+	"fuse.simpleRawFileSystem.nodeLock":              "one raw file system per FUSE mount",
+	"pool.bitmapSectorAllocator.lock":                "one sector allocator per block device",
 	"virtual.fuseHandleOptions.removalNotifiersLock": "one options object per FUSE handle allocator",
 }
